@@ -1,6 +1,6 @@
 (** Correspondence glue for the COMPOSED conversion [Conv.Full.conv_full] against the real
     [DicomStack.to_nifti(order, embed_meta)] / [to_nifti_wrapper(order)]: ONE check compares data array, dtype,
-    affine, header fields, the state left behind (file order, dirty flag), the embedded extension, the voxel-order
+    affine, header fields, the embedded extension, the voxel-order
     abstraction (props/stacklib.wants_flip against [o_vo], a function of the model's own flips) and every lookup at
     the voxel index of a source file.
 
@@ -15,8 +15,18 @@ From DV Require Import Common.Res Common.Str Common.Jv Generated.T_conv
 Import ListNotations.
 Local Open Scope nat_scope.
 
+(** PUBLIC results only (audit 2, rule 5): the stack's private state (_files_info order, _shape_dirty) is not observed;
+    that the state left behind is right is judged on what later calls return (the history oracle of props/convfull.py). *)
 Record fobs := mkfobs {
-  ob_geom : CorrGeom.obs;                 (* exception class, final ids, dirty flag, shape, data, dtype, affine, header fields *)
+  ob_raised : bool;                       (* the conversion raised (any exception class) *)
+  ob_shape : list nat;
+  ob_data : list Z;                       (* C-order contents *)
+  ob_dtype : str;
+  ob_aff : mat;
+  ob_dim_info : option nat * option nat * option nat;
+  ob_pixdim4 : Q;
+  ob_units : str * str;
+  ob_stimes : option (list Q);            (* argument of set_slice_times, None = not called *)
   ob_ext : option (ext jv);               (* the extension found in the header (None: there is none) *)
   ob_look : list (nat * (list Z * list (key * res jv)))   (* file id |-> voxel index of its pixel (0,0), get_meta there per key *)
 }.
@@ -30,7 +40,8 @@ Record fcase := mkfcase {
   fc_faffs : list mat;                     (* single-file NIfTI affines (from_dicom_wrapper), parallel *)
   fc_code : str;                           (* voxel order ("" = no reorientation) *)
   fc_embed : bool;
-  fc_exact : bool;                         (* float64 geometry AND the float32 sform rounding are exact on this input *)
+  fc_exact : bool;                         (* decided by the GENERATOR from the case's geometry: every float64 operation and the
+                                              float32 sform rounding are exact on this input *)
   fc_default : bool;                       (* the stack uses dcmstack.default_meta_filter *)
   fc_filt : list (key * bool);             (* otherwise: the real filter's verdict for every key *)
   fc_wants_flip : option bool;             (* props/stacklib.wants_flip on the first added file *)
@@ -99,7 +110,7 @@ Definition look_ok (c : fcase) (go : geom_out) (h : hdr_out) (e : ext jv) (l : n
       forallb (fun kv => res_eqb jv_eqb (Ext.Model.get_meta (full_img go h) e (fst kv) (Some ix) JNull) (snd kv)) kvs
   end.
 
-Definition check_hdr_fields (h : hdr_out) (o : CorrGeom.obs) : bool :=
+Definition check_hdr_fields (h : hdr_out) (o : fobs) : bool :=
   let '(f, p, s) := h_dim_info h in
   let '(f', p', s') := ob_dim_info o in
   CorrGeom.onat_eqb f f' && CorrGeom.onat_eqb p p' && CorrGeom.onat_eqb s s' &&
@@ -112,17 +123,16 @@ Definition check_hdr_fields (h : hdr_out) (o : CorrGeom.obs) : bool :=
   end.
 
 Definition check (c : fcase) : bool :=
-  let o := ob_geom (fc_obs c) in
+  let o := fc_obs c in
   contracts_ok (fc_exact c) (fc_files c) (fc_faffs c) &&
   maffs_ok (fc_exact c) (fc_files c) (fc_maffs c) &&
   (length (fc_metas c) =? length (fc_files c)) &&
   match model c with
   | Err _ => false                                            (* every add of a case succeeds *)
   | Ok (st', r) =>
-      nats_eqb (ids (files_info st')) (ob_order o) && Bool.eqb (shape_dirty st') (ob_dirty o) &&
-      match r, ob_err o with
-      | Err e, Some e' => err_eqb e e'
-      | Ok (go, h, oe), None =>
+      match r, ob_raised o with
+      | Err _, true => true                                   (* refused / raised: no class is promised *)
+      | Ok (go, h, oe), false =>
           (* data, dtype, affine *)
           nats_eqb (ashape (go_data go)) (ob_shape o) && zs_eqb (adata (go_data go)) (ob_data o) &&
           str_eqb (go_dtype go) (ob_dtype o) && mat_close (fc_exact c) (go_aff go) (ob_aff o) &&
@@ -133,9 +143,9 @@ Definition check (c : fcase) : bool :=
           (if 1 <? h_n_slices h then ovo_eqb (o_vo (go_nifti go)) (fc_wants_flip c)
            else Bool.eqb (is_some (o_vo (go_nifti go))) (is_some (fc_wants_flip c))) &&
           (* the extension and the lookups *)
-          match oe, ob_ext (fc_obs c) with
-          | None, None => match ob_look (fc_obs c) with [] => true | _ => false end
-          | Some e, Some e' => ext_close (fc_exact c) e e' && forallb (look_ok c go h e) (ob_look (fc_obs c))
+          match oe, ob_ext o with
+          | None, None => match ob_look o with [] => true | _ => false end
+          | Some e, Some e' => ext_close (fc_exact c) e e' && forallb (look_ok c go h e) (ob_look o)
           | _, _ => false
           end
       | _, _ => false
